@@ -48,6 +48,58 @@ def _attr_tag(e: ast.Attribute) -> Optional[str]:
     return None
 
 
+_SUMMARY_CACHE: Dict[int, Dict[int, List[int]]] = {}
+
+
+def _index_summary(fn: FuncInfo) -> Dict[int, List[int]]:
+    """{position of a parameter whose elements are used as indices: [positions of the parameters they index]} (self/cls not counted)."""
+    key = id(fn.node)
+    if key in _SUMMARY_CACHE:
+        return _SUMMARY_CACHE[key]
+    params = [a.arg for a in fn.node.args.args if a.arg not in ("self", "cls")]
+    out: Dict[int, List[int]] = {}
+    nested = [f for f in ast.walk(fn.node) if isinstance(f, ast.FunctionDef) and f is not fn.node]
+    for ip, pname in enumerate(params):
+        derived = {pname}
+        changed = True
+        while changed:
+            changed = False
+            for a in ast.walk(fn.node):
+                if isinstance(a, ast.Assign) and len(a.targets) == 1 and isinstance(a.targets[0], ast.Name) and a.targets[0].id not in derived:
+                    names = {x.id for x in ast.walk(a.value) if isinstance(x, ast.Name)}
+                    calls = {(dotted(c.func) or "").split(".")[-1] for c in ast.walk(a.value) if isinstance(c, ast.Call)}
+                    if names & derived and calls <= {"list", "tuple", "sorted"}:
+                        derived.add(a.targets[0].id)
+                        changed = True
+                if isinstance(a, (ast.For, ast.comprehension)):
+                    it = a.iter
+                    tg = a.target
+                    if isinstance(it, ast.Call) and (dotted(it.func) or "") == "enumerate" and it.args and isinstance(tg, ast.Tuple) and len(tg.elts) == 2:
+                        it, tg = it.args[0], tg.elts[1]
+                    if isinstance(it, ast.Name) and it.id in derived and isinstance(tg, ast.Name) and tg.id not in derived:
+                        derived.add(tg.id)
+                        changed = True
+                if isinstance(a, ast.Call) and isinstance(a.func, ast.Name):
+                    for f in nested:
+                        if f.name == a.func.id:
+                            for q, arg in zip([x.arg for x in f.args.args], a.args):
+                                if q not in derived and {x.id for x in ast.walk(arg) if isinstance(x, ast.Name)} & derived:
+                                    derived.add(q)
+                                    changed = True
+        hit = []
+        for sub in ast.walk(fn.node):
+            if isinstance(sub, ast.Subscript) and isinstance(sub.value, ast.Name) and sub.value.id in params and sub.value.id != pname \
+                    and sub.value.id not in derived:
+                if {x.id for x in ast.walk(sub.slice) if isinstance(x, ast.Name)} & derived:
+                    tp_ = params.index(sub.value.id)
+                    if tp_ not in hit:
+                        hit.append(tp_)
+        if hit:
+            out[ip] = hit
+    _SUMMARY_CACHE[key] = out
+    return out
+
+
 class BasisTyping:
     def __init__(self, fn: FuncInfo):
         self.fn = fn
@@ -120,6 +172,26 @@ class BasisTyping:
                         return XPXP
                 elif len(e.args) >= 2 and len({norm(a) for a in e.args}) == 1 and self.tag(e.args[0]) is None:
                     return XPXP
+            # a callee (method of the same class / function of the same module) that uses the elements of one parameter as indices into
+            # other parameters: positions and indexed quantities must be of one ordering
+            callee_idx = None
+            if isinstance(e.func, ast.Attribute) and isinstance(e.func.value, ast.Name) and e.func.value.id in ("self", "cls") and self.fn.cls is not None:
+                callee_idx = next((c_.methods[e.func.attr] for c_ in [self.fn.cls] + list(self.fn.cls.mro()) if e.func.attr in c_.methods), None)
+            elif isinstance(e.func, ast.Name) and e.func.id in self.fn.module.functions:
+                callee_idx = self.fn.module.functions[e.func.id]
+            if callee_idx is not None:
+                for ip, targets in _index_summary(callee_idx).items():
+                    if ip < len(e.args):
+                        pt = self.tag(e.args[ip])
+                        if isinstance(pt, str) and pt.startswith("pos:"):
+                            for tp_ in targets:
+                                if tp_ < len(e.args):
+                                    at = self.tag(e.args[tp_])
+                                    if isinstance(at, str) and not at.startswith("pos:") and at != pt[4:]:
+                                        self.issues.append(Issue(self.fn, e, "positions-of-other-ordering",
+                                                                 f"`{norm(e.args[ip])[:40]}` holds positions in the {pt[4:]} ordering (elements of the "
+                                                                 f"{pt[4:]}->... index map) and {callee_idx.name} uses them to index `{norm(e.args[tp_])[:40]}`, "
+                                                                 f"which is {at}-ordered"))
             # a helper of the same module: the ordering of what it returns
             if isinstance(e.func, ast.Name) and e.func.id in self.fn.module.functions and self._depth < 2:
                 callee = self.fn.module.functions[e.func.id]
@@ -149,6 +221,14 @@ class BasisTyping:
             return None
         if isinstance(e, ast.UnaryOp):
             return self.tag(e.operand)
+        if isinstance(e, (ast.ListComp, ast.GeneratorExp)):
+            # [P[i] for i in S]: a list of elements of the index map P - positions in P's source ordering
+            t = self.tag(e.elt)
+            return t if isinstance(t, str) and t.startswith("pos:") else None
+        if isinstance(e, ast.Subscript) and self.conv_of(e.value) is not None and self.conv_of(e.slice) is None \
+                and not (isinstance(e.slice, ast.Call) and (dotted(e.slice.func) or "").split(".")[-1] == "ix_"):
+            # P[i] with P = xxpp_to_xpxp_indices(d): v_xpxp = v_xxpp[P], so the *values* of P are positions in the xxpp ordering
+            return "pos:" + self.conv_of(e.value)[0]
         if isinstance(e, ast.Subscript):
             sl = e.slice
             conv = None
